@@ -237,7 +237,9 @@ def _pool(rng, swarm):
     pool = []
     for _ in range(rng.randint(2, 4)):
         minor = rng.choice([4, 4, 5])
-        base = nbgen.notebook(rng, max_cells=swarm["max_cells"], minor=minor, shapes=shapes)
+        if swarm.get("edit_kinds") and "dupedit" in swarm["edit_kinds"]:
+            minor = 4      # with cell ids the id predicate settles the alignment before the heuristics are consulted
+        base = nbgen.notebook(rng, max_cells=max(swarm["max_cells"], 2) if minor == 4 else swarm["max_cells"], minor=minor, shapes=shapes)
         fam = [base]
         focus = rng.randrange(max(1, len(base["cells"]))) if rng.random() < swarm.get("focus_p", 0) else None
         for _ in range(rng.randint(2, 3) if focus is not None else rng.randint(1, 3)):
@@ -258,7 +260,8 @@ def generate(rng, index, cfg):
         "w_perturb": rng.choice([0.0, 0.1, 0.25]),
         "w_merge": rng.choice([0.1, 0.3, 0.5]),
         "focus_p": rng.choice([0.0, 0.5, 0.9, 1.0]),
-        "edit_kinds": rng.choice([None, ["src"] * 6 + ["out", "md"], ["src"] * 6 + ["out", "md"], ["out", "out", "ec", "md", "src"], ["src", "src", "out"], ["ins", "del", "move", "dup", "out"]]),
+        "p_repeat": rng.choice([0.0, 0.3, 0.6]),
+        "edit_kinds": rng.choice([None, ["src"] * 6 + ["out", "md"], ["dupedit", "dupedit", "out", "src"], ["dupedit", "dupedit", "src", "out"], ["out", "out", "ec", "md", "src"], ["src", "src", "out"], ["ins", "del", "move", "dup", "out"]]),
     }
     pool = _pool(rng, swarm)
     flat = []
@@ -294,7 +297,16 @@ def generate(rng, index, cfg):
             a["ignore_transients"] = False
         return a
 
+    issued = []
+
     def compared():
+        if issued and rng.random() < swarm.get("p_repeat", 0.0):
+            return copy.deepcopy(rng.choice(issued))      # the same call again, later in the history
+        op = _compared()
+        issued.append(op)
+        return op
+
+    def _compared():
         r = rng.random()
         if r < swarm["w_merge"]:
             b, l, rr = pick_triple()
@@ -358,6 +370,12 @@ def generate(rng, index, cfg):
             ops.append(perturb())
         else:
             ops.append(compared())
+    if rng.random() < 0.5:
+        # the same call before and after a configuration change, and again after a reset
+        x = _compared()
+        ops += [x, config_op(), copy.deepcopy(x)]
+        if rng.random() < 0.5:
+            ops += [{"op": "reset"}, copy.deepcopy(x)]
     if ops[-1]["op"] not in ("diff", "merge", "decide"):
         ops.append(compared())
     return {"swarm": swarm, "pool": flat, "ops": ops}
